@@ -1,4 +1,5 @@
-// C12: idf_output_vector / idf_input_vector round-trip for plain indices and for the nested record element types.
+// C12: idf_output_vector / idf_input_vector round-trip for plain indices and Derivation elements (the element types that
+// contain strings, EnumValue and Parameter, are in c12_records.cxx where the string-length patterns live).
 #include "verif.h"
 #include "vstream.h"
 #include "interrogate_datafile.h"
@@ -12,16 +13,6 @@
 #ifndef LMAX
 #define LMAX 2
 #endif
-
-// symbolic content for a default-constructed (SSO) string: length 0..LMAX over all byte values.  Every store uses a
-// concrete index: a store at a symbolic offset into a heap object makes CBMC treat the whole object as bytes.
-static void sym_string(std::string &s) {
-  int len = nondet_int();
-  ASSUME(len >= 0 && len <= LMAX);
-  for (int i = 0; i < LMAX; i++) { char c = nondet_char(); s._M_local_buf[i] = i < len ? c : (char)0; }
-  s._M_local_buf[LMAX] = 0;
-  s._M_string_length = (size_t)len;
-}
 
 // The length is symbolic, but each length is explored with concrete container structure: the body is a template
 // over the length, the dispatcher's taken branch returns, so stream positions and heap layout stay concrete.
@@ -94,76 +85,3 @@ template<int n> static void vec_derivation_body() {
   WITNESS();
 }
 extern "C" void harness_c12_vec_derivation() { DISPATCH_LENGTH(vec_derivation_body) }
-
-template<int n> static void vec_enumvalue_body() {
-  typedef InterrogateType::EnumValue E;
-  E *vals = new E[n + 1];
-  std::vector<E> *v = new std::vector<E>;
-  v->reserve(n);
-  for (int i = 0; i < n; i++) {
-    sym_string(vals[i]._name); sym_string(vals[i]._scoped_name); sym_string(vals[i]._comment); vals[i]._value = nondet_int();
-    v->push_back(vals[i]);
-  }
-  int follow = nondet_int();
-  std::ostream *out = vs_ostream_new();
-  idf_output_vector(*out, *v);
-  *out << follow << ' ';
-  ASSERT(vs_format_error(out) == 0, "C12 every integer in the file is delimited from its neighbours");
-  std::istream *in = vs_istream_of(out);
-  std::vector<E> *r = new std::vector<E>;
-  idf_input_vector(*in, *r);
-  ASSERT(!in->fail(), "C12 reading back a written vector does not fail");
-  ASSERT((int)r->size() == n, "C12 vector<EnumValue> read back has the written length");
-  for (int i = 0; i < n && i < (int)r->size(); i++) {
-    const E &e = (*r)[i];
-    ASSERT(e._name == vals[i]._name, "C12 EnumValue._name round-trips");
-    ASSERT(e._scoped_name == vals[i]._scoped_name, "C12 EnumValue._scoped_name round-trips");
-    ASSERT(e._comment == vals[i]._comment, "C12 EnumValue._comment round-trips");
-    ASSERT(e._value == vals[i]._value, "C12 EnumValue._value round-trips");
-  }
-  int f2 = 0;
-  *in >> f2;
-  ASSERT(!in->fail() && f2 == follow, "C12 the value following a vector is read back intact");
-  std::ostream *out2 = vs_ostream_new();
-  idf_output_vector(*out2, *r);
-  *out2 << f2 << ' ';
-  ASSERT(vs_same_output(out, out2), "C12 re-serialising the read-back vector gives the same file content");
-  WITNESS();
-}
-extern "C" void harness_c12_vec_enumvalue() { DISPATCH_LENGTH(vec_enumvalue_body) }
-
-template<int n> static void vec_parameter_body() {
-  typedef InterrogateFunctionWrapper::Parameter P;
-  P *vals = new P[n + 1];
-  std::vector<P> *v = new std::vector<P>;
-  v->reserve(n);
-  for (int i = 0; i < n; i++) {
-    sym_string(vals[i]._name); vals[i]._parameter_flags = nondet_int(); vals[i]._type = nondet_int();
-    v->push_back(vals[i]);
-  }
-  int follow = nondet_int();
-  std::ostream *out = vs_ostream_new();
-  idf_output_vector(*out, *v);
-  *out << follow << ' ';
-  ASSERT(vs_format_error(out) == 0, "C12 every integer in the file is delimited from its neighbours");
-  std::istream *in = vs_istream_of(out);
-  std::vector<P> *r = new std::vector<P>;
-  idf_input_vector(*in, *r);
-  ASSERT(!in->fail(), "C12 reading back a written vector does not fail");
-  ASSERT((int)r->size() == n, "C12 vector<Parameter> read back has the written length");
-  for (int i = 0; i < n && i < (int)r->size(); i++) {
-    const P &p = (*r)[i];
-    ASSERT(p._name == vals[i]._name, "C12 Parameter._name round-trips");
-    ASSERT(p._parameter_flags == vals[i]._parameter_flags, "C12 Parameter._parameter_flags round-trips");
-    ASSERT(p._type == vals[i]._type, "C12 Parameter._type round-trips");
-  }
-  int f2 = 0;
-  *in >> f2;
-  ASSERT(!in->fail() && f2 == follow, "C12 the value following a vector is read back intact");
-  std::ostream *out2 = vs_ostream_new();
-  idf_output_vector(*out2, *r);
-  *out2 << f2 << ' ';
-  ASSERT(vs_same_output(out, out2), "C12 re-serialising the read-back vector gives the same file content");
-  WITNESS();
-}
-extern "C" void harness_c12_vec_parameter() { DISPATCH_LENGTH(vec_parameter_body) }
